@@ -15,7 +15,7 @@ pub fn prop() -> Prop {
         rule: "configurations = set(2) x split(3, one reading a --set variable) x filter(3, one a --set macro) x select(4, one reading a previously selected name) x unique(2) x sort(5: none, 1 key both directions, 2 keys, a selected name) x skip(3) x take(3) x {none, --group-by, --merge, --group-by on a selected name} x only-objects-and-arrays(2) = 51 840 (quick: the 17 280 with --set given and a filter); inputs = all sequences of <=2 (thorough <=3) values over 9 records (ties, items that differ only in where a nested object closes, absent and non-string keys, empty and missing arrays, a scalar, an array, integers that differ only beyond 2^53) and cyclic repetitions to 17 and 40 rows for every 13th configuration; every configuration is also run with its option groups reversed and rotated (relative order of repeated --select/--sort-by kept), and every 211th with all permutations of its option groups; and with each of --regular-expression-cache-size, --on-error=stderr/panic/stdout added at a varying position (nothing may change on a clean input); non-trivial = at least two stages are active and something is printed; distinct by construction; plus, for 10 configurations whose stage expressions read the position of a record (&index, &index-in-file) or not, every sequence of <=4 values over 2 records, an array and 3 scalars with --only-objects-and-arrays against the same sequence without its scalars; every configuration is also run in 7 other documented spellings of its command line, one per second case in rotation and all of them on the empty input (three of them mixing the spellings within one command line; second long names such as --choose/--where/--break-by/--combine/--order-by/--limit, short options, value as a separate word or attached)",
         explanation: "stdout rows are compared with the reference pipeline (pure list transformations in the documented order); argument orders are compared byte for byte with the canonical order",
         assumptions: COMMON_ASSUMPTIONS.to_vec(),
-        guards: vec!["command-line-respelled", "scalars-removed-before-position-dependent-stages", "irrelevant-option-added", "limiter-before-grouper", "two-sort-keys-with-take", "split-reads-set-variable", "sort-by-selected-name", "all-group-permutations", "scalar-removed-by-only-objects-and-arrays", "unique-removed-a-row", "group-by-selected-name"],
+        guards: vec!["limits-whose-sum-exceeds-64-bits", "command-line-respelled", "scalars-removed-before-position-dependent-stages", "irrelevant-option-added", "limiter-before-grouper", "two-sort-keys-with-take", "split-reads-set-variable", "sort-by-selected-name", "all-group-permutations", "scalar-removed-by-only-objects-and-arrays", "unique-removed-a-row", "group-by-selected-name"],
         budget_s: (150, 3000),
         single_worker: false,
         run,
@@ -271,6 +271,28 @@ fn run(ctx: &mut Ctx) {
     }
     ctx.level_done(&format!("{}-configurations-x-all-inputs-of-<={maxlen}-records", n));
     ooa_removes_scalars_before_the_stages(ctx);
+    // limits at the edge of their range (S + T does not fit in 64 bits) in a handful of configurations
+    let mut n_edge = 0usize;
+    for ix in &configs {
+        // set given, no filter restriction: every 97th configuration that has both a skip and a take
+        if ix[6] == 0 || ix[7] == 0 {
+            continue;
+        }
+        n_edge += 1;
+        if n_edge % 97 != 0 || !ctx.mine() {
+            continue;
+        }
+        for (s, t) in [(1u64, u64::MAX), (u64::MAX, 1u64), (u64::MAX, u64::MAX), (2, u64::MAX - 1)] {
+            let mut cfg = build(ix);
+            cfg.skip = s;
+            cfg.take = Some(t);
+            ctx.guard("limits-whose-sum-exceeds-64-bits");
+            for inp in inputs.iter().filter(|i| i.len() == 2).step_by(7) {
+                check(ctx, &cfg, ix, inp, false, false, 1);
+            }
+        }
+    }
+    ctx.level_done("limits-at-the-edge-of-the-64-bit-range");
 }
 
 /// "after --only-objects-and-arrays has removed top-level scalars": the stages see exactly the sequence that remains,
